@@ -647,6 +647,7 @@ impl<W: Write> Runner<W> {
                 self.emit("set_limits", json!({"ss": ss, "ps": if ps < 0 { -1 } else { ps }}), false, None);
             }
             "checkpoint" => {
+                let _ = format!("{:?}", self.m);
                 self.emit("checkpoint", json!({}), true, None);
             }
             _ => {
